@@ -523,6 +523,18 @@ func predCLI(c Case) (r Result) {
 	// oracle: the library in-process
 	var doc interface{}
 	jerr := json.Unmarshal([]byte(input), &doc)
+	if jerr == nil {
+		// where the specification leaves the outcome to the order of object members, two
+		// evaluations (here: two processes) may legitimately differ, even in failing
+		if n, st, e := ref.ParseText(expr); e == nil && st == ref.LexOK {
+			ev := &ref.Ev{}
+			_, _ = ev.Eval(n, ref.DeepCopy(doc))
+			if ev.Ambiguous {
+				r.Discard = "ambiguous:" + ev.Why
+				return
+			}
+		}
+	}
 	_, cerr, _ := libCompile(expr)
 	var lib libOut
 	expectOK := false
